@@ -44,6 +44,12 @@ EXTRA = {
     "src/cooler/cli/dump.py": {"make_annotator": ["C12", "C16"], "dump": ["C16"]},
     "src/cooler/cli/balance.py": {"balance": ["C11", "C10"]},
     "src/cooler/cli/cload.py": {"pairs": ["C05", "C16", "C06"]},
+    "src/cooler/create/_create.py": {"create_cooler": ["C01", "C13", "C06", "C02"], "create_from_unordered": ["C06", "C13"],
+                                      "create_scool": ["C17"], "_rename_chroms": ["C18"]},
+    "src/cooler/cli/_util.py": {"parse_field_param": ["C16", "C07", "C08", "C09"], "check_ncpus": ["C08", "C11"], "parse_bins": ["C20", "C16"],
+                                 "parse_kv_list_param": ["C16"]},
+    "src/cooler/cli/zoomify.py": {"zoomify": ["C09"]},
+    "src/cooler/fileops.py": {"is_multires_file": ["C09", "C15"]},
     "src/cooler/cli/load.py": {"load": ["C05", "C16", "C06", "C15"]},
     "src/cooler/core/_selectors.py": {"_IndexingMixin._process_slice": ["C03", "C14"], "_IndexingMixin._isintlike": ["C03", "C14"]},
     "src/cooler/api.py": {"annotate": ["C14", "C16"], "matrix": ["C03", "C12", "C01"], "Cooler.matrix": ["C03", "C12", "C04"]},
